@@ -36,13 +36,14 @@ pub fn mkframe(a: u16, t: u8, d: Vec<u8>, borrowed: bool) -> Frame<'static> {
 /// Reply script element for the scripted bus.
 #[derive(Clone, Debug)]
 pub enum Reply {
-    BusErr,
+    /// the bus call fails; the byte selects WHICH error it fails with (all are bus errors to the controller)
+    BusErr(u8),
     Rep(Option<Message<'static>>),
 }
 
 pub fn reply_of_str(s: &str) -> Reply {
     match s {
-        "E" => Reply::BusErr,
+        "E" | "ET" | "EI" | "EW" | "EF" | "EG" => Reply::BusErr(s.as_bytes().get(1).copied().unwrap_or(b' ')),
         "N" => Reply::Rep(None),
         _ => Reply::Rep(Some(msg_of_str(s))),
     }
@@ -83,12 +84,68 @@ impl SignBus for ScriptBus {
                 self.blocked = true;
                 Err(Box::new(ScriptError("script exhausted")))
             }
-            Some(Reply::BusErr) => {
+            Some(Reply::BusErr(kind)) => {
                 self.errored = true;
-                Err(Box::new(ScriptError("scripted bus error")))
+                // E: a custom error; ET/EI/EW: std::io::Error of kind TimedOut / Interrupted / WouldBlock;
+                // EF: FrameError::Io wrapping a TimedOut; EG: FrameError::Io wrapping an Interrupted
+                Err(match kind {
+                    b'T' => Box::new(std::io::Error::new(std::io::ErrorKind::TimedOut, "scripted timeout")),
+                    b'I' => Box::new(std::io::Error::new(std::io::ErrorKind::Interrupted, "scripted interrupt")),
+                    b'W' => Box::new(std::io::Error::new(std::io::ErrorKind::WouldBlock, "scripted would-block")),
+                    b'F' => Box::new(flipdot_core::FrameError::from(std::io::Error::new(std::io::ErrorKind::TimedOut, "scripted timeout"))),
+                    b'G' => Box::new(flipdot_core::FrameError::from(std::io::Error::new(std::io::ErrorKind::Interrupted, "scripted interrupt"))),
+                    _ => Box::new(ScriptError("scripted bus error")),
+                })
             }
             Some(Reply::Rep(r)) => Ok(r.map(|m| own_msg(&m))),
         }
+    }
+}
+
+// ---- "autoref specialisation" probe: Some(data) if `&'static [u8; N]: Into<Data>` exists, None otherwise ----
+struct Probe<T>(T);
+trait HasConversion {
+    fn convert(&self) -> Option<Data<'static>>;
+}
+impl<T: Copy + Into<Data<'static>>> HasConversion for Probe<T> {
+    fn convert(&self) -> Option<Data<'static>> {
+        Some(self.0.into())
+    }
+}
+trait NoConversion {
+    fn convert(&self) -> Option<Data<'static>>;
+}
+impl<T> NoConversion for &Probe<T> {
+    fn convert(&self) -> Option<Data<'static>> {
+        None
+    }
+}
+const fn pattern<const N: usize>() -> [u8; N] {
+    let mut a = [0u8; N];
+    let mut i = 0;
+    while i < N {
+        a[i] = (i as u8).wrapping_mul(7);
+        i += 1;
+    }
+    a
+}
+fn static_array_probe(n: usize) -> Option<Data<'static>> {
+    static A0: [u8; 0] = pattern::<0>();
+    static A1: [u8; 1] = pattern::<1>();
+    static A4: [u8; 4] = pattern::<4>();
+    static A5: [u8; 5] = pattern::<5>();
+    static A16: [u8; 16] = pattern::<16>();
+    static A255: [u8; 255] = pattern::<255>();
+    static A256: [u8; 256] = pattern::<256>();
+    match n {
+        0 => (&Probe(&A0)).convert(),
+        1 => (&Probe(&A1)).convert(),
+        4 => (&Probe(&A4)).convert(),
+        5 => (&Probe(&A5)).convert(),
+        16 => (&Probe(&A16)).convert(),
+        255 => (&Probe(&A255)).convert(),
+        256 => (&Probe(&A256)).convert(),
+        _ => None,
     }
 }
 
@@ -102,33 +159,28 @@ pub fn snd_unconstructible(op: &str) -> bool {
 pub fn run_cop(op: &str, bus: Rc<RefCell<dyn SignBus>>) -> Option<Result<String, SignError>> {
     let p: Vec<&str> = op.splitn(3, '.').collect();
     let a = Address(num::<u16>(p[1]));
+    // The sign type only matters for configure / configure_if_needed.
+    let ty = match p[0] {
+        "CFG" | "CIN" => SIGN_TYPES[num::<usize>(p[2])],
+        _ => SignType::Max3000Side90x7,
+    };
+    let sign = Sign::new(bus, a, ty);
+    run_cop_on(&sign, op)
+}
+
+/// One controller operation on an EXISTING Sign object (so that several operations can share one object).
+pub fn run_cop_on(sign: &Sign, op: &str) -> Option<Result<String, SignError>> {
+    let p: Vec<&str> = op.splitn(3, '.').collect();
     match p[0] {
-        "CFG" => {
-            let sign = Sign::new(bus, a, SIGN_TYPES[num::<usize>(p[2])]);
-            guarded(|| sign.configure().map(|_| String::new()))
-        }
-        "CIN" => {
-            let sign = Sign::new(bus, a, SIGN_TYPES[num::<usize>(p[2])]);
-            guarded(|| sign.configure_if_needed().map(|_| String::new()))
-        }
+        "CFG" => guarded(|| sign.configure().map(|_| String::new())),
+        "CIN" => guarded(|| sign.configure_if_needed().map(|_| String::new())),
         "SND" => {
-            // The sign type is irrelevant for send_pages.
-            let sign = Sign::new(bus, a, SignType::Max3000Side90x7);
             let pages = pages_of_str(p[2]);
             guarded(|| sign.send_pages(&pages).map(|s| format!(".{}", str_style(s))))
         }
-        "SHW" => {
-            let sign = Sign::new(bus, a, SignType::Max3000Side90x7);
-            guarded(|| sign.show_loaded_page().map(|_| String::new()))
-        }
-        "LNX" => {
-            let sign = Sign::new(bus, a, SignType::Max3000Side90x7);
-            guarded(|| sign.load_next_page().map(|_| String::new()))
-        }
-        "BYE" => {
-            let sign = Sign::new(bus, a, SignType::Max3000Side90x7);
-            guarded(|| sign.shut_down().map(|_| String::new()))
-        }
+        "SHW" => guarded(|| sign.show_loaded_page().map(|_| String::new())),
+        "LNX" => guarded(|| sign.load_next_page().map(|_| String::new())),
+        "BYE" => guarded(|| sign.shut_down().map(|_| String::new())),
         _ => panic!("bad cop {}", op),
     }
 }
@@ -202,6 +254,26 @@ fn eval_case_inner(line: &str) -> String {
                 Some(Err(e)) => str_ferr(&e),
             }
         }
+        "NEWS" => {
+            // Is there a public conversion from a static array of this length into Data, and if so does it respect the
+            // 255-byte limit?  (Which lengths have a conversion is part of the API and not the model's business; the
+            // probe compiles whether or not the impl exists.)
+            match guarded(|| static_array_probe(num::<usize>(t[1]))) {
+                None => "OK".to_string(), // a conversion that refuses by panicking places nothing in a frame
+                Some(None) => "OK".to_string(),
+                Some(Some(d)) => {
+                    let n = num::<usize>(t[1]);
+                    let got = d.get().len();
+                    if got > 255 {
+                        format!("ACCEPTED-OVERSIZE {}", got)
+                    } else if got != n || d.get().iter().enumerate().any(|(i, b)| *b != (i as u8).wrapping_mul(7)) {
+                        format!("UNFAITHFUL {}", got)
+                    } else {
+                        "OK".to_string()
+                    }
+                }
+            }
+        }
         "DEC" => {
             let b = bytes_of_hex(t[1]);
             match guarded(|| Frame::from_bytes(&b)) {
@@ -261,6 +333,16 @@ fn eval_case_inner(line: &str) -> String {
             None => "PANIC".to_string(),
             Some(p) => hex_of_bytes(p.as_bytes()),
         },
+        "PBO" => {
+            // from_bytes over an OWNED buffer (Vec) instead of a borrowed slice
+            let bs = pb_bytes(num(t[3]), num(t[4]));
+            match guarded(|| Page::from_bytes(num(t[1]), num(t[2]), bs.clone())) {
+                None => "PANIC".to_string(),
+                Some(Ok(p)) => format!("OK {}", hex_of_bytes(p.as_bytes())),
+                Some(Err(flipdot_core::PageError::WrongPageLength { .. })) => "ER LEN".to_string(),
+                Some(Err(_)) => "ER ???".to_string(),
+            }
+        }
         "PB" => {
             let bs = pb_bytes(num(t[3]), num(t[4]));
             match guarded(|| Page::from_bytes(num(t[1]), num(t[2]), &bs[..])) {
@@ -333,6 +415,28 @@ fn eval_case_inner(line: &str) -> String {
                 None => "PANIC".to_string(),
             }
         }
+        "CTS" => {
+            // CTS a t op1,op2,... replies... : several operations on ONE Sign object over one scripted bus
+            let ops: Vec<&str> = t[3].split(',').collect();
+            let script: Vec<Reply> = t[4..].iter().map(|s| reply_of_str(s)).collect();
+            let bus = Rc::new(RefCell::new(ScriptBus::new(script)));
+            let dynbus: Rc<RefCell<dyn SignBus>> = bus.clone();
+            let sign = Sign::new(dynbus, Address(num::<u16>(t[1])), SIGN_TYPES[num::<usize>(t[2])]);
+            let mut outs: Vec<String> = vec![];
+            let mut seen = 0usize;
+            for op in ops {
+                let r = run_cop_on(&sign, op);
+                let b = bus.borrow();
+                let trace: Vec<String> = b.trace[seen..].iter().map(str_msg).collect();
+                seen = b.trace.len();
+                let o = str_outcome(&r, b.blocked);
+                outs.push(format!("{} => {}", trace.join(" "), o));
+                if o == "BLOCKED" || o == "CRASH" {
+                    break;
+                }
+            }
+            outs.join(" ;; ")
+        }
         "CT" => {
             if snd_unconstructible(t[1]) {
                 // a page literal the library refuses to build (wrong byte length): nothing to send
@@ -394,6 +498,10 @@ fn eval_pg(t: &[&str]) -> String {
                 Err(_) => return "ER LEN".to_string(),
             }
         }
+        "O" => match Page::from_bytes(w, h, bytes_of_hex(src[1])) {
+            Ok(p) => p,
+            Err(_) => return "ER LEN".to_string(),
+        },
         _ => panic!("bad PG src"),
     };
     let mut out = String::new();
